@@ -3,7 +3,7 @@ from .driver import register
 from .pgmodel import PINNED_RULES
 
 W1_ASSUME = [
-    "property values are str or int; each property name carries one value type within a graph (GraphML types a key once)",
+    "property values are str or int (one name may carry both types, on nodes and on edges)",
     "carriage return is excluded from generated text (XML line-end normalisation is outside the library)",
     "failing imports (text without NodeID) are issued only for graph ids not currently stored",
     "find_matching_nodes / clone_graph / merge_nodes are issued only for graphs that currently have nodes",
@@ -33,3 +33,25 @@ register('C01', world='w1:W1World', quick=5000, thorough=200000, level='explorat
               "compared again, re-serialized and validated. 40% of runs arm the file seam (ENOSPC, EIO, short write, "
               "missing file) with the relaxed oracle. Non-trivial: >=1 successful mutating op (and >=1 fired fault in fault runs).",
          assumptions=W1_ASSUME)
+
+register('C20', level='exploration', world='w1t:W1TWorld',
+         parts=[{'world': 'w1:W1World', 'quick': 4000, 'thorough': 150000},
+                {'world': 'w1t:W1TWorld', 'quick': 12000, 'thorough': 1500000}],
+         rule="two parts. (A) seeded W1 runs (see C04) with an observing lock in both stores: after every store operation of "
+              "every history, incl. naturally failing ones, acquires = releases, no release while unlocked, not held on "
+              "exit; plus 'crash_enum' steps that enumerate EVERY line event of one store operation (add_graph, "
+              "add_graph_direct, del_graph, extract_graph, get_graph, del_all_graphs, add_blank_node_to_graph; fresh / "
+              "existing / failing input) and re-run it with MemoryError raised there. (B) W1-T: 2-3 real threads x 2-4 "
+              "store operations under a seeded baton scheduler (random switching or PCT priorities) pre-empting at every "
+              "source line of the store modules and every lock operation; 30% of runs also raise MemoryError at a chosen "
+              "line event of a chosen thread. Non-trivial: part A >=1 successful mutating op; part B >=1 context switch. "
+              "Distinct = distinct event-log digest (part B's log contains the complete schedule).",
+         assumptions=W1_ASSUME + [
+             "pre-emption granularity is a source line of networkx_property_graph.py / _disjoint.py / networkx_mixin.py; "
+             "code those lines call (networkx, networkx_query) runs atomically",
+             "exceptions are not injected at the lock calls themselves nor at try:/finally:/return lines (their line event "
+             "lies outside the protected range by construction of the bytecode)",
+             "in threaded runs each thread owns its graph ids; all threads add nodes with distinct ids to one common graph; "
+             "on the disjoint store a graph is imported only under an id that currently has no nodes (known finding F-C05)"],
+         stubs=['uuid.uuid4 (seeded)', 'store lock (observing SimLock / scheduler-aware ThreadLock)',
+                'thread scheduler: which thread runs next is decided by the seeded scheduler (threads themselves are real)'])
